@@ -2023,6 +2023,14 @@ class Engine:
         r = V.rv(l)
         return tV(z3.If(h.llen(r) > 0, h.lget(r, 0), d))
 
+    def lib_asyncio_sleep(self, e, ec):
+        """await asyncio.sleep(t): a scheduling point.  ASSUMED: whatever runs meanwhile does not touch the objects the verified unit
+        speaks about (the claims made across a sleep are about local objects and ghost traces)"""
+        for a in e.args:
+            self.ev(a, ec)
+        self.assumptions.add("A-SLEEP: tasks scheduled during `await asyncio.sleep(..)` do not modify the objects the contract speaks about")
+        return tV(V.none)
+
     def lib_random_choice(self, e, ec):
         """random.choice(seq): SOME item of the sequence (every outcome of the tie-break); IndexError on an empty one"""
         l = toV(self.mat(self.ev(e.args[0], ec), ec))
@@ -2531,6 +2539,27 @@ class Engine:
         ec.st.assume(z3.ForAll([i], z3.Implies(z3.And(i >= na, i < na + nb), arr[i] == old_b[i - na]), patterns=[arr[i]]))
         self.list_set_all(ec, r, na + nb, arr)
         return tV(V.none)
+
+    def me_clear(self, recv, e, ec):
+        """d.clear() on a dict / set, xs.clear() on a list: the container is empty afterwards"""
+        v = toV(recv)
+        if e.args or self.is_vm(ec):
+            return None
+        if ec.guard:
+            raise OutOfSubset("conditional mutation inside an expression")
+        h = ec.st.heap
+        r = V.rv(v)
+        if self.must_g(ec, is_dictlike(v)):
+            d = dict(dhas=z3.K(V, z3.BoolVal(False)), dval=h.sel("dval", r), dlen=z3.IntVal(0), dkey=fresh("dk", smt.ArrIV), didx=fresh("di", smt.ArrVI))
+            a2 = dict(h.a)
+            for nm in ("dhas", "dval", "dlen", "dkey", "didx"):
+                a2[nm] = z3.Store(h.a[nm], r, d[nm])
+            h.a = a2
+            return tV(V.none)
+        if self.must_g(ec, smt.is_kind(v, "list")):
+            self.list_set_all(ec, r, z3.IntVal(0), h.sel("lel", r))
+            return tV(V.none)
+        return None
 
     def me_index(self, recv, e, ec):
         """xs.index(x): position of the FIRST item equal to x (Python ==), ValueError when there is none"""
@@ -3047,6 +3076,14 @@ class Engine:
             if kv_.k != "fn":
                 oenv["kw_" + kn_] = kv_
         pre_o = St(dict(oenv), ec.st.heap.copy(), list(ec.st.pc), ghost=dict(ec.st.ghost))
+        if desc.get("check") and getattr(ec, "fx", None) is not None and not ec.guard:
+            # a condition every call of the opaque callee in the verified code has to satisfy (CHECKED at the call: obligation `pre-opaque`);
+            # besides recv / argN it may mention the verified unit's own variables
+            chk_env = dict(ec.st.env)
+            chk_env.update(oenv)
+            chk_st = St(chk_env, ec.st.heap, ec.st.pc, ghost=dict(ec.st.ghost))
+            for text, f in self.spec_conj(desc["check"], chk_st, ec.fx.entry, ec.fx):
+                self.emit(ec.fx, "pre-opaque", e.lineno, ec.st, f, note="at every call of %s: %s" % (name, text))
         if desc.get("assigns") is not None:
             # assumed frame: only the listed objects / attributes (of the receiver and arguments) change
             if desc["assigns"]:
